@@ -30,6 +30,7 @@ static problem even_problem(int id) {
     p.A = vr::poisson2d(nx, ny, 1 + g.below(2), 1 + id);
     p.rhs.resize(p.A->nrows);
     for (auto &v : p.rhs) v = g.range(-4, 4);
+    p.A2 = perturbed(*p.A);
     return p;
 }
 
@@ -50,6 +51,17 @@ template <class Solver, class Prm> static result run_block(const problem &pb, co
         solve.precond().apply(f, y);
         r.px.vec(&y[0], nb);
         r.describe(solve);
+        try {
+            auto Ab2 = amgcl::adapter::block_matrix<V>(*pb.A2);
+            solve.precond().rebuild(Ab2);
+            std::vector<double> x2(pb.rhs.size(), 0.0);
+            auto X2 = amgcl::make_iterator_range(reinterpret_cast<R*>(x2.data()), reinterpret_cast<R*>(x2.data()) + nb);
+            std::tie(it, res) = solve(Ab2, F, X2);
+            r.rit = (long long)it; r.rres.pod(res); r.rx.vec(x2.data(), x2.size());
+            amgcl::backend::numa_vector<R> y2(nb);
+            solve.precond().apply(f, y2);
+            r.rpx.vec(&y2[0], nb);
+        } catch (const std::exception &e) { r.rthrew = true; r.exc = std::string("rebuild: ") + e.what(); }
     } catch (const std::exception &e) { r.threw = true; r.exc = e.what(); }
     return r;
 }
